@@ -82,6 +82,9 @@ ExactFails(o, p) ==
 
 \* C06: every visible CAS file holds the bytes its name promises
 BlobFails(dj) == Fail(dj.casbad = <<>>, "C06:blob-bytes")
+\* C06: no file under cas/ is created empty, written, or truncated in place (counted by the interposer: open with
+\* O_CREAT/O_TRUNC, write, ftruncate on a path under cas/; blobs appear by rename and disappear by unlink only)
+InPlaceFails(o) == Fail(o.casw = 0, "C06:in-place-write-under-cas")
 
 \* C20 on a decoded directory: shape of the log and snapshot
 WellFormedFails(d, n) ==
@@ -118,6 +121,7 @@ OpFails(mb, uop, res, o, po, exact, drift) ==
           CountFails(o),
           IF exact THEN ExactFails(o, "C07") ELSE {},
           BlobFails(o.disk),
+          InPlaceFails(o),
           WellFormedFails(d, mb.n),
           Fail(r.ok /\ r.idx = m2.acked, "C20:decode-equals-history"),
           IF uop.op \in {"reopen", "ckpt"} THEN Fail(Stable(o, po), "C02:changed-by-" \o uop.op) ELSE {},
